@@ -152,6 +152,11 @@ func (w *Walker) Walk(
 
 	select {
 	case <-done:
+		// The routines also all end when the context was cancelled from the outside (e.g. SIGINT)
+		// in which case cancelled nodes are left uncompleted: report that instead of success
+		if ctx.Err() != nil && !w.failFastTriggered {
+			return w.completions, ctx.Err()
+		}
 		return w.completions, nil
 	case <-ctx.Done():
 		logger.Debugf(
